@@ -162,6 +162,11 @@ func (h *MultiHandler) Accept(msg *Message) {
 		return
 	}
 
+	if h.echoMismatch(msg) {
+		h.abort(errors.New("broadcast verification failed"))
+		return
+	}
+
 	if msg.Broadcast {
 		if err := h.verifyBroadcastMessage(msg); err != nil {
 			h.abort(err, msg.From)
@@ -175,6 +180,15 @@ func (h *MultiHandler) Accept(msg *Message) {
 	}
 
 	h.finalize()
+}
+
+// echoMismatch reports whether msg carries a hash of the previous round's broadcasts that differs
+// from ours. The sender then saw other broadcasts than we did - somebody equivocated - so the content
+// of msg cannot be judged against our view, and its (possibly honest) sender must not be blamed for
+// failing a check that depends on that view.
+func (h *MultiHandler) echoMismatch(msg *Message) bool {
+	previousHash := h.broadcastHashes[msg.RoundNumber-1]
+	return previousHash != nil && !bytes.Equal(previousHash, msg.BroadcastVerification)
 }
 
 func (h *MultiHandler) verifyBroadcastMessage(msg *Message) error {
@@ -324,6 +338,10 @@ func (h *MultiHandler) finalize() {
 			if m == nil || id == r.SelfID() {
 				continue
 			}
+			if h.echoMismatch(m) {
+				h.abort(errors.New("broadcast verification failed"))
+				return
+			}
 			// if false, we aborted and so we return
 			if err = h.verifyBroadcastMessage(m); err != nil {
 				h.abort(err, m.From)
@@ -335,6 +353,10 @@ func (h *MultiHandler) finalize() {
 		for _, m := range h.messages[roundNumber] {
 			if m == nil {
 				continue
+			}
+			if h.echoMismatch(m) {
+				h.abort(errors.New("broadcast verification failed"))
+				return
 			}
 			// if false, we aborted and so we return
 			if err = h.verifyMessage(m); err != nil {
